@@ -1586,6 +1586,7 @@ def build_units(ctx: Ctx, n_schemas: int, n_inst: int, nested_rate: float = 0.8)
         made += 1
         for _ in range(n_inst):
             xml, root = L.gen_instance(rng, ast)
+            gstats = dict(L.LAST_STATS)
             try:
                 ok = schema.is_valid(xml)
             except Exception:
@@ -1593,6 +1594,8 @@ def build_units(ctx: Ctx, n_schemas: int, n_inst: int, nested_rate: float = 0.8)
             if not ok:
                 ctx.count('gen:instance-invalid')
                 continue
+            for k in gstats:
+                ctx.count('doc:' + k)
             yield Unit(sid, xsd, schema, xml, root, ast)
             if len(root) and rng.random() < nested_rate:
                 # the same instance with namespace (re)declarations nested at random depths
